@@ -219,6 +219,70 @@ func (p *Pair) ReadFrom(r io.Reader) (n int64, err error) {
 	return n + inc, nil
 }
 
+// FIELDUNSET control: nothing ever assigns k
+type Unset struct{ k []byte }
+
+func (u *Unset) Key() []byte { return u.k }
+
+// CTORSIB control: only one of the two constructors keeps the key
+type Gen struct {
+	key []byte
+	n   int
+}
+
+func NewGenRandom() *Gen { return &Gen{key: []byte{1, 2, 3}, n: 3} }
+func NewGenKeyed(key []byte) *Gen {
+	g := new(Gen)
+	g.n = len(key)
+	return g
+}
+func (g *Gen) Key() []byte { return append([]byte{}, g.key...) }
+func (g *Gen) Len() int    { return g.n }
+
+// DEEPCOPY control: a "deep" copy that is a value copy
+func (t Thing) CopyNew() *Thing { return &t }
+
+// SAMPLEF control: the empty positions are overwritten whatever f is
+func sampleBad(pol ring.Poly, f func(a, b, c uint64) uint64) {
+	coeffs := pol.Coeffs
+	coeffs[0][0] = f(coeffs[0][0], 1, 97)
+	coeffs[0][1] = 0
+}
+
+// PRNGBUF control: the re-keyed sampler keeps the old buffer
+type bufSampler struct {
+	prng sampling.PRNG
+	buf  []byte
+}
+
+func (s *bufSampler) WithPRNG(p sampling.PRNG) *bufSampler { return &bufSampler{prng: p, buf: s.buf} }
+
+// FLAGORDER control: the decoding step comes after the transform
+type xform struct {
+	Decode bool
+	Func   func([]uint64)
+	Encode bool
+}
+
+func applyX(t *xform, v []uint64) {
+	t.Func(v)
+	if t.Decode {
+		for i := range v {
+			v[i]++
+		}
+	}
+}
+
+// ENCRED control: raw values go straight into the transform
+func encodeRaw(r *ring.Ring, values interface{}, pT ring.Poly) {
+	pt := pT.Coeffs[0]
+	switch values := values.(type) {
+	case []uint64:
+		copy(pt, values)
+	}
+	r.INTT(pT, pT)
+}
+
 // SHARED control: ShallowCopy shares the map M, which put() stores through
 func (t *Thing) put(k uint64) { t.M[k] = k }
 
